@@ -18,12 +18,12 @@ func init() {
 	register(&run.Check{
 		ID:    "C11",
 		Level: "model_checking",
-		Rule: "bounded-exhaustive: elements {a, area, link} x every attribute list of length <=3 (thorough 4) with repetition over 21 attributes (href external / scheme-relative / local / fragment / mailto / javascript / empty; rel values including tokens that merely contain the required words, upper case, tab-separated; target _blank / _self / other; an unrelated attribute) " +
+		Rule: "bounded-exhaustive: elements {a, area, link} x every attribute list of length <=3 (thorough 4) with repetition over 21 attributes (href external / scheme-relative / local / fragment / mailto / javascript / empty; rel values including tokens that merely contain the required words, upper case, tab-separated; target _blank / _BLANK / _self / other; an unrelated attribute) " +
 			"x all 32 combinations of the five link options x {rel admitted without pattern | with SpaceSeparatedTokens | not admitted} x {target admitted | not}. " +
-			"Oracle on the first rel / first target of each output tag that carries an href (as a browser reads duplicates): required tokens present per option and per host-qualification of the first surviving href, target=_blank where required, noopener whenever an a ends up with target=_blank, " +
+			"Oracle on the first rel / first target of each output tag that carries an href (as a browser reads duplicates): required tokens present per option and per host-qualification of the first surviving href, target=_blank where required, noopener whenever an a ends up with a target that is _blank in any letter case, " +
 			"every token of each surviving input rel still present, required tokens not more frequent than in the input or once; when the tag has exactly one href and at most one target, no rel token that neither the input carried nor an option in force requires for that link. non-trivial = at least one requirement applied to the output tag.",
 		Assumptions: []string{
-			"target values that differ from _blank only in case are deliberately outside the alphabet; 'has a host' is judged as a browser does (for http / https the slashes after the scheme are optional)",
+			"'has a host' is judged as a browser does (for http / https the slashes after the scheme are optional)",
 			"requirements are evaluated only for elements that carry an href in the output",
 		},
 		QuickBudget: 50, ThoroughBudget: 800,
@@ -145,11 +145,12 @@ func judgeC11(v *spec.View, in, out obs.Tok) (sig, what string, applied bool) {
 	tgt, hasT := firstAttr(out.Attr, "target")
 	if el == "a" && v.TargetBlank && host {
 		applied = true
-		if !hasT || tgt != "_blank" {
+		if !hasT || obs.ASCIILower(tgt) != "_blank" {
 			return "missing|target-blank", fmt.Sprintf("<a href=%s> with a host lacks target=\"_blank\" (first target=%s)", run.Q(href), run.Q(tgt)), true
 		}
 	}
-	if el == "a" && v.LinkOptionOn() && hasT && tgt == "_blank" {
+	isBlank := hasT && obs.ASCIILower(tgt) == "_blank" // a browser matches the keyword ASCII case-insensitively
+	if el == "a" && v.LinkOptionOn() && isBlank {
 		applied = true
 		if !hasRel || !obs.HasToken(rel, "noopener") {
 			return "missing|noopener", fmt.Sprintf("<a href=%s target=\"_blank\"> lacks the rel token noopener (first rel=%s)", run.Q(href), run.Q(rel)), true
@@ -159,7 +160,7 @@ func judgeC11(v *spec.View, in, out obs.Tok) (sig, what string, applied bool) {
 	if hasRel && len(attrsNamed(out.Attr, "href")) == 1 && len(attrsNamed(out.Attr, "target")) <= 1 {
 		base := strings.Join(attrsNamed(in.Attr, "rel"), " ") // every token the input carried in any rel attribute
 		for tk, need := range map[string]bool{"nofollow": needNF, "noreferrer": needNR,
-			"noopener": el == "a" && v.LinkOptionOn() && hasT && tgt == "_blank"} {
+			"noopener": el == "a" && v.LinkOptionOn() && isBlank} {
 			if !need && obs.HasToken(rel, tk) && !obs.HasToken(base, tk) {
 				return "added-unrequired|" + tk, fmt.Sprintf("<%s href=%s>: rel token %s was added although no option requires it on this link (rel=%s)", el, run.Q(href), tk, run.Q(rel)), true
 			}
